@@ -42,6 +42,7 @@ class Report(object):
         self.backends = {}
         self.explanation = None
         self.rerun_witness = None  # callable(witness) -> list of violated clause names, or None if not reproducible
+        self.ledger_promote = False  # quantified-heap properties: a ledger obligation that is no longer discharged is reported
 
     # ------------------------------------------------------------ collecting
     def add_vc(self, name, status, function=None, clause=None, backend=None, time_s=0.0, detail=None):
@@ -83,7 +84,30 @@ class Report(object):
             json.dump(body, f, indent=1, default=str)
         return os.path.relpath(path, HERE)
 
-    def finish(self):
+    def load_ledger(self):
+        if not os.path.exists(LEDGER):
+            return None
+        return json.load(open(LEDGER)).get(self.prop)
+
+    def finish(self, record_ledger=False):
+        if record_ledger:
+            os.makedirs(os.path.dirname(LEDGER), exist_ok=True)
+            led = json.load(open(LEDGER)) if os.path.exists(LEDGER) else {}
+            led[self.prop] = sorted(o["name"] for o in self.obligations.values() if o["status"] == "discharged")
+            json.dump(led, open(LEDGER, "w"), indent=0, sort_keys=True)
+        ledger = self.load_ledger()
+        self.extra["ledger"] = None if ledger is None else {"recorded": len(ledger), "missing_now": sorted(set(ledger) - set(self.obligations))[:40]}
+        if self.ledger_promote and ledger is not None:
+            # an obligation that was discharged on the unchanged tree and is not discharged now is reported as a violation
+            # (no counter-example: the solver's reason is attached) - see DESIGN 5.1
+            still = []
+            for u in self.undecided:
+                if u["obligation"] in ledger:
+                    self.violations.append({"obligation": u["obligation"], "how": "ledger regression (was discharged on the unchanged tree)",
+                                            "solver_output": u.get("reason"), "confirmed": False})
+                else:
+                    still.append(u)
+            self.undecided = still
         known = self.load_known()
         lines = []
         real_violations = []
